@@ -120,7 +120,7 @@ PROPS = {
     },
     "C19": {
         "quick": [L("checked", 1.0), L("wrapping", 1.0)],
-        "thorough": [L("checked", 1.0), L("wrapping", 1.0), L("miri", 1.0, workers=16)],
+        "thorough": [L("checked", 1.0), L("wrapping", 1.0), L("miri", 0.0002, workers=16)],
         "digest_rule": "checked_and_wrapping_builds_disagree",
         "assumptions": COMMON_ASSUME + ["the checked and wrapping lanes run the same seeded cases (same sharding), so per-case output digests are comparable"],
         "exhaustive_notes": ["all 65536 values of each 16-bit format", "all 65536 RGB5A3 values", "ETC1: all table pairs x flip x mode, every selector at every position for every table, every base/delta pair with sum in 0..=31, all 256 individual nibble pairs, all alpha nibbles x positions", "thorough: all 4096 CI8 sizes 1..=64 x 1..=64"],
